@@ -1303,10 +1303,10 @@ pub const OPAQUE_BUILTINS: &[&str] = &[
     "if @@ then @@ end", "@@ and @@", "@@ or @@", "@@ // @@", "-(@@)", "@@ + @@", "@@ - @@", "@@ * @@", "@@ / @@", "@@ % @@", "@@ == @@",
     "@@ < @@", "@@ >= @@", "[@@, @@] | sort", "[@@, @@] | unique", "{a: @@} * {a: {b: @@}}", "$x?", "ltrimstr(\"a\") | rtrimstr(\"b\")",
     "splits(\", \")?", "significand?", "logb?", "gamma?", "frexp?", "modf?", "ldexp(@@; @@)?", "scalb(@@; @@)?", "nearbyint?", "cbrt?",
-    "getpath([\"a\"]) as $v | $v", "env.HOME | type", "@yaml?", "@props?", "tag?",
-    "line?", "column?", "key?", "kind?", "style?", "anchor?", "document_index?", "shuffle? | length?", "pivot?", "omit(@@)?", "parent?",
-    "at_offset(0)?", "todate?", "now | type", "localtime? | type", "from_unix?", "to_unix?", "tz(\"UTC\")?", 
-    "split_doc?", "file_index?", "getpath([\"a\",0,\"b\"])", "ascii_downcase?", "@dsv(\"|\")?", "@urid?", "ltrimstr(\"é\")",
+    "getpath([\"a\"]) as $v | $v", "env.HOME | type", "@yaml?", "@props?", 
+    "omit(@@)?", 
+    "todate?", "now | type", "localtime? | type", 
+    "getpath([\"a\",0,\"b\"])", "ascii_downcase?", "@dsv(\"|\")?", "@urid?", "ltrimstr(\"é\")",
     "splits(\"é\")?", "test(\"A\"; \"i\")?", "capture(\"(?<x>a)\")?", "sub(\"a\"; \"b\")?", "gsub(\"\"; \"-\")?", "scan(\"a\")?",
     "match(\"a\"; \"g\")?", "[match(\"\"; \"g\")?] | length",
 ];
@@ -1676,4 +1676,100 @@ pub fn expr_to_ast(e: &Expr) -> Option<Ast> {
         }
         _ => return None,
     })
+}
+
+// ---------------------------------------------------------------------------------------
+// static classification used by known-finding signatures: builtins with VALUE arguments whose
+// argument expression may yield other than exactly one output (jq fans out: cartesian product)
+// ---------------------------------------------------------------------------------------
+
+/// may this expression yield zero or several outputs? (syntactic over-approximation)
+pub fn maybe_multi(a: &Ast) -> bool {
+    match a {
+        Ast::Id | Ast::Field(_) | Ast::Lit(_) | Ast::Arr0 | Ast::Arr(_) | Ast::Var(_) => false,
+        Ast::Comma(..) | Ast::Iter | Ast::Opt(_) | Ast::Try(..) | Ast::Err0 | Ast::Err(_) | Ast::Break(_) | Ast::Foreach(..) | Ast::Raw(_) => true,
+        Ast::Idx(x, y) | Ast::Pipe(x, y) | Ast::Bin(_, x, y) | Ast::Cmp(_, x, y) | Ast::And(x, y) | Ast::Or(x, y) | Ast::Alt(x, y) => {
+            maybe_multi(x) || maybe_multi(y)
+        }
+        Ast::Neg(x) | Ast::Label(_, x) => maybe_multi(x),
+        Ast::Obj(kv) => kv.iter().any(|(k, v)| maybe_multi(k) || maybe_multi(v)),
+        Ast::If(c, t, e) => maybe_multi(c) || maybe_multi(t) || maybe_multi(e),
+        Ast::Reduce(_, _, i, _) => maybe_multi(i),
+        Ast::As(s, _, bd) => maybe_multi(s) || maybe_multi(bd),
+        Ast::Call(f, args) => match (f.as_str(), args.len()) {
+            ("range" | "limit" | "first" | "last" | "select" | "paths" | "fromstream" | "error", _) => true,
+            ("empty" | "paths" | "leaf_paths" | ".." | "recurse" | "tostream" | "values" | "nulls" | "booleans" | "numbers" | "strings"
+            | "arrays" | "objects" | "iterables" | "scalars" | "error", 0) => true,
+            (_, 0) => false,
+            // value-argument builtins fan out over their arguments
+            ("has" | "in" | "getpath" | "setpath" | "delpaths" | "join" | "flatten" | "startswith" | "endswith" | "ltrimstr" | "rtrimstr", _) => {
+                args.iter().any(maybe_multi)
+            }
+            _ => false,
+        },
+    }
+}
+
+/// causes (known-defect classes) for every value-argument builtin call with a possibly
+/// multi-output argument somewhere in the program
+pub fn multi_arg_causes(a: &Ast, out: &mut std::collections::BTreeSet<String>) {
+    let mut kids: Vec<&Ast> = vec![];
+    match a {
+        Ast::Idx(x, y) | Ast::Pipe(x, y) | Ast::Comma(x, y) | Ast::Bin(_, x, y) | Ast::Cmp(_, x, y) | Ast::And(x, y) | Ast::Or(x, y)
+        | Ast::Alt(x, y) => kids.extend([&**x, &**y]),
+        Ast::Err(x) => {
+            if maybe_multi(x) {
+                out.insert("error_of_empty_argument".into());
+            }
+            kids.push(x)
+        }
+        Ast::Opt(x) | Ast::Arr(x) | Ast::Neg(x) | Ast::Label(_, x) => kids.push(x),
+        Ast::Obj(kv) => kv.iter().for_each(|(k, v)| kids.extend([k, v])),
+        Ast::If(c, t, e) => kids.extend([&**c, &**t, &**e]),
+        Ast::Try(x, c) => {
+            kids.push(x);
+            if let Some(c) = c {
+                kids.push(c)
+            }
+        }
+        Ast::Reduce(s, _, i, u) => kids.extend([&**s, &**i, &**u]),
+        Ast::Foreach(s, _, i, u, e) => {
+            kids.extend([&**s, &**i, &**u]);
+            if let Some(e) = e {
+                kids.push(e)
+            }
+        }
+        Ast::As(s, _, bd) => kids.extend([&**s, &**bd]),
+        Ast::Call(f, args) => {
+            kids.extend(args.iter());
+            let m: Vec<bool> = args.iter().map(maybe_multi).collect();
+            match (f.as_str(), args.len()) {
+                ("setpath", 2) => {
+                    if m[1] {
+                        out.insert("setpath_multi_output_value".into());
+                    }
+                    if m[0] {
+                        out.insert("setpath_delpaths_multi_output_path".into());
+                    }
+                }
+                ("delpaths", 1) if m[0] => {
+                    out.insert("setpath_delpaths_multi_output_path".into());
+                }
+                ("range", _) if m.iter().any(|x| *x) => {
+                    out.insert("range_multi_output_bounds".into());
+                }
+                ("getpath" | "has" | "ltrimstr" | "rtrimstr" | "startswith" | "endswith" | "join" | "flatten", 1) if m[0] => {
+                    out.insert("value_arg_first_output_only".into());
+                }
+                ("limit", 2) if m[0] => {
+                    out.insert("value_arg_first_output_only".into());
+                }
+                _ => {}
+            }
+        }
+        _ => {}
+    }
+    for k in kids {
+        multi_arg_causes(k, out);
+    }
 }
